@@ -7,6 +7,7 @@ import os
 MODULES = ['contracts.c15_kron']
 
 C = 'quimb/core.py'
+O = 'quimb/gen/operators.py'
 MUTANTS = [
     # ---- dynal
     (C, '::dynal', 'bs_szs = [prod(bases[i + 1 :])', 'bs_szs = [prod(bases[i:])', 'expect-fail'),
@@ -87,6 +88,65 @@ MUTANTS = [
     (C, '::_dim_map_nd', "elif not all(all(c == c % sz for c, sz in zip(coo, szs)) for coo in coos):", "elif not any(all(c == c % sz for c, sz in zip(coo, szs)) for coo in coos):", 'expect-fail'),
     (C, '::_dim_map_nd', "return (sum(c * m for c, m in zip(coo, strides)) for coo in coos)", "return (sum(c * m for c, m in zip(coo, strides[::-1])) for coo in coos)", 'expect-fail'),
     (C, '::_dim_map_nd', "coos = ((c % sz for c, sz in zip(coo, szs)) for coo in coos)", "coos = ((c % sz for c, sz in zip(coo, szs[::-1])) for coo in coos)", 'expect-fail'),
+    # ---- calc.partial_transpose
+    ('quimb/calc.py', '::partial_transpose', "            perm_ket_inds.append(i + ndims)\n            perm_bra_inds.append(i)", "            perm_ket_inds.append(i)\n            perm_bra_inds.append(i)", 'expect-fail'),
+    ('quimb/calc.py', '::partial_transpose', "        if i in sysa:\n            perm_ket_inds.append(i + ndims)", "        if i not in sysa:\n            perm_ket_inds.append(i + ndims)", 'expect-fail'),
+    ('quimb/calc.py', '::partial_transpose', "    for i in range(ndims):\n        if i in sysa:\n            perm_ket_inds.append(i + ndims)", "    for i in range(ndims - 1):\n        if i in sysa:\n            perm_ket_inds.append(i + ndims)", 'expect-fail'),
+    ('quimb/calc.py', '::partial_transpose', ".transpose((*perm_ket_inds, *perm_bra_inds))", ".transpose((*perm_bra_inds, *perm_ket_inds))", 'expect-fail'),
+    ('quimb/calc.py', '::partial_transpose', "            perm_ket_inds.append(i)\n            perm_bra_inds.append(i + ndims)", "            perm_ket_inds.append(i)\n            perm_bra_inds.append(i + ndims - 1)", 'expect-fail'),
+    ('quimb/calc.py', '::partial_transpose', "        .reshape((*dims, *dims))\n        .transpose((*perm_ket_inds, *perm_bra_inds))", "        .transpose((*perm_ket_inds, *perm_bra_inds))", 'expect-fail'),
+    ('quimb/calc.py', '::partial_transpose', "    for i in range(ndims):\n        if i in sysa:\n            perm_ket_inds.append(i + ndims)", "    for i in range(1, ndims):\n        if i in sysa:\n            perm_ket_inds.append(i + ndims)", 'expect-fail'),
+    # ---- _dim_compressor
+    (C, '::_dim_compressor', "        elif i in inds:\n            if blocksize_id > 1:\n                yield (blocksize_id, 0)\n                blocksize_id = 1", "        elif i in inds:\n            if blocksize_id > 1:\n                yield (blocksize_id, 0)", 'expect-fail'),
+    (C, '::_dim_compressor', "            blocksize_op *= dim\n        else:", "            blocksize_op += dim\n        else:", 'expect-fail'),
+    (C, '::_dim_compressor', "        else:\n            if blocksize_op > 1:\n                yield (blocksize_op, 1)\n                blocksize_op = 1", "        else:\n            if blocksize_op > 1:\n                yield (blocksize_op, 0)\n                blocksize_op = 1", 'expect-fail'),
+    (C, '::_dim_compressor', "        elif i in inds:\n            if blocksize_id > 1:", "        elif i + 1 in inds:\n            if blocksize_id > 1:", 'expect-fail'),
+    (C, '::_dim_compressor', "    yield (\n        (blocksize_op, 1)\n        if blocksize_op > 1\n        else (blocksize_id, 0)", "    yield (\n        (blocksize_op, 1)\n        if blocksize_op > 2\n        else (blocksize_id, 0)", 'expect-fail'),
+    (C, '::_dim_compressor', "            blocksize_id *= dim\n    yield (", "            blocksize_id = dim\n    yield (", 'expect-fail'),
+    (C, '::_dim_compressor', "        else:\n            if blocksize_op > 1:\n                yield (blocksize_op, 1)\n                blocksize_op = 1", "        else:\n            if blocksize_op > 1:\n                blocksize_op = 1", 'expect-fail'),
+    # ---- dim_compress
+    (C, '::dim_compress', "inds = tuple(i for i, b in enumerate(inds) if b)", "inds = tuple(i for i, b in enumerate(inds) if not b)", 'expect-fail'),
+    (C, '::dim_compress', "inds = tuple(i for i, b in enumerate(inds) if b)", "inds = tuple(i + 1 for i, b in enumerate(inds) if b)", 'expect-fail'),
+    (C, '::dim_compress', "    dims, inds = zip(*_dim_compressor(dims, inds))", "    inds, dims = zip(*_dim_compressor(dims, inds))", 'expect-fail'),
+    (C, '::dim_compress', "    if isinstance(inds, Integral):\n        inds = (inds,)\n\n    dims, inds = zip", "    if isinstance(inds, Integral):\n        inds = (inds + 1,)\n\n    dims, inds = zip", 'expect-fail'),
+    (C, '::dim_compress', "    dims, inds = zip(*_dim_compressor(dims, inds))", "    dims, inds = zip(*_dim_compressor(dims[1:], inds))", 'expect-fail'),
+    # ---- ikron.gen_ops
+    (C, '::ikron.gen_ops', "                if cff_id > 1:\n                    yield eye(cff_id, **eye_kws)\n                    cff_id = 1  # reset cumulative identity size", "                if cff_id > 1:\n                    yield eye(cff_id, **eye_kws)", 'expect-fail'),
+    (C, '::ikron.gen_ops', "                if cff_ov * dim == sz_op or dim == -1:\n                    yield op\n                    cff_ov = 1", "                if cff_ov * dim == sz_op or dim == -1:\n                    yield op", 'expect-fail'),
+    (C, '::ikron.gen_ops', "            elif cff_ov > 1:\n                cff_ov *= dim", "            elif cff_ov > 1:\n                cff_id *= dim", 'expect-fail'),
+    (C, '::ikron.gen_ops', "        if cff_id > 1:\n            yield eye(cff_id, **eye_kws)\n\n    return kron(", "        if cff_id > 2:\n            yield eye(cff_id, **eye_kws)\n\n    return kron(", 'expect-fail'),
+    (C, '::ikron.gen_ops', "                else:\n                    cff_ov *= dim\n", "                else:\n                    cff_ov += dim\n", 'expect-fail'),
+    (C, '::ikron.gen_ops', "            else:\n                cff_id *= dim\n", "            else:\n                cff_id = dim\n", 'expect-fail'),
+    (C, '::ikron.gen_ops', "                if cff_ov == 1:\n                    op = next(ops)", "                if cff_ov >= 1:\n                    op = next(ops)", 'expect-fail'),
+    (C, '::ikron.gen_ops', "                    yield eye(cff_id, **eye_kws)\n                    cff_id = 1", "                    yield eye(cff_id)\n                    cff_id = 1", 'expect-fail'),
+    # ---- dim_map (dispatcher; the table _dim_mapper_methods is read from the real source)
+    (C, '::dim_map', "    (1, False, True): _dim_map_1dtrim,", "    (1, False, True): _dim_map_1dcyclic,", 'expect-fail'),
+    (C, '::dim_map', "    (2, False, False): _dim_map_2d,", "    (2, False, False): _dim_map_2dtrim,", 'expect-fail'),
+    (C, '::dim_map', "    (2, True, False): _dim_map_2dcyclic,", "    (2, True, True): _dim_map_2dcyclic,", 'benign'),  # the n-d fallback computes the same wrapped index
+    (C, '::dim_map', "            coos = (c[0] for c in coos)", "            coos = (c[0] + 1 for c in coos)", 'expect-fail'),
+    (C, '::dim_map', "        inds = _dim_map_nd(szs, coos, cyclic, trim)", "        inds = _dim_map_nd(szs, coos, trim, cyclic)", 'expect-fail'),
+    (C, '::dim_map', "    while ndim > 1:\n        dims = itertools.chain", "    while ndim > 2:\n        dims = itertools.chain", 'expect-fail'),
+    (C, '::dim_map', "inds = _dim_mapper_methods[(ndim, cyclic, trim)](*szs, coos)", "inds = _dim_mapper_methods[(ndim, trim, cyclic)](*szs, coos)", 'expect-fail'),
+    # ---- gen.operators.ham_heis / ham_heis.gen_term
+    (O, '::ham_heis', "0 if not any((bx, by, bz)) else -1, n if cyclic else n - 1", "0 if any((bx, by, bz)) else -1, n if cyclic else n - 1", 'expect-fail'),
+    (O, '::ham_heis', "0 if not any((bx, by, bz)) else -1, n if cyclic else n - 1", "0 if not any((bx, by, bz)) else -1, n - 1 if cyclic else n", 'expect-fail'),
+    (O, '::ham_heis', "0 if not any((bx, by, bz)) else -1, n if cyclic else n - 1", "0 if not any((bx, by)) else -1, n if cyclic else n - 1", 'expect-fail'),
+    (O, '::ham_heis', "0 if not any((bx, by, bz)) else -1, n if cyclic else n - 1", "0 if not any((bx, by, bz)) else -1, n if cyclic else n - 2", 'expect-fail'),
+    (O, '::ham_heis', "b * kron(spin_operator(s, **op_kws), eye(2, **op_kws))", "b * kron(eye(2, **op_kws), spin_operator(s, **op_kws))", 'expect-fail'),
+    (O, '::ham_heis', "        -b * spin_operator(s, **op_kws)\n", "        b * spin_operator(s, **op_kws)\n", 'expect-fail'),
+    (O, '::ham_heis', "j * kron(spin_operator(s, **op_kws), spin_operator(s, **op_kws))", "kron(spin_operator(s, **op_kws), spin_operator(s, **op_kws))", 'expect-fail'),
+    (O, '::ham_heis', "        bz = b\n        bx = by = 0.0", "        bx = b\n        bz = by = 0.0", 'expect-fail'),
+    (O, '::ham_heis', "        ham = sum(map(gen_term, terms_needed))", "        ham = sum(map(gen_term, terms_needed[1:]))", 'expect-fail'),
+    (O, '::ham_heis', "    ) - sum(\n        b * kron(", "    ) + sum(\n        b * kron(", 'expect-fail'),
+    (O, '::ham_heis.gen_term', "        if i == -1:\n            return ikron(single_site_b, dims, n - 1, **ikron_kws)", "        if i == 0:\n            return ikron(single_site_b, dims, n - 1, **ikron_kws)", 'expect-fail'),
+    (O, '::ham_heis.gen_term', "return ikron(single_site_b, dims, n - 1, **ikron_kws)", "return ikron(single_site_b, dims, n - 2, **ikron_kws)", 'expect-fail'),
+    (O, '::ham_heis.gen_term', "spin_operator(s, **op_kws), dims, [0, n - 1], **ikron_kws", "spin_operator(s, **op_kws), dims, [0, n - 2], **ikron_kws", 'expect-fail'),
+    (O, '::ham_heis.gen_term', "return ikron(two_site_term, dims, [i, i + 1], **ikron_kws)", "return ikron(two_site_term, dims, [i, i + 2], **ikron_kws)", 'expect-fail'),
+    (O, '::ham_heis.gen_term', "        if i == n - 1:\n            return sum(", "        if i == n:\n            return sum(", 'expect-fail'),
+    (O, '::ham_heis.gen_term', "                j\n                * ikron(", "                1\n                * ikron(", 'expect-fail'),
+    (O, '::ham_heis.gen_term', "return ikron(two_site_term, dims, [i, i + 1], **ikron_kws)", "return ikron(single_site_b, dims, [i, i + 1], **ikron_kws)", 'expect-fail'),
+    (O, '::ham_heis.gen_term', "                for j, s in zip((jx, jy, jz), \"xyz\")\n                if j != 0.0\n            )", "                for j, s in zip((jx, jy, jz), \"xyz\")\n            )", 'benign'),
+    (O, '::ham_heis.gen_term', "return ikron(two_site_term, dims, [i, i + 1], **ikron_kws)", "return ikron(two_site_term, dims, [i, i + 1])", 'expect-fail'),
 ]
 
 _BASELINE = {}
